@@ -489,6 +489,102 @@ func TestVerifC11(t *testing.T) {
 			rep.Count("read_failures_survived", 1)
 		}
 	}
+	// transient WRITE failures at first use: on a fresh store the k-th datastore write of a round of first-use calls is
+	// refused once, for EVERY k. Whatever the failing call returned, afterwards (fault gone) the running instance and an
+	// instance re-opened on the same datastore must report the same identity and derive the same contact group; and a
+	// store on which nothing was persisted must reproduce an imported account exactly (export, contact group as the
+	// exporting account derives it).
+	{
+		injected := fmt.Errorf("verif: injected datastore write error")
+		peer := newVStore("WFP", 2, 2)
+		g, _, _ := protocoltypes.NewGroupMultiMember()
+		isWrite := func(op string) bool { return op == "put" || op == "commit" || op == "delete" }
+		firstUse := func(v *vStore) {
+			_, _, _ = v.ss.GetGroupForAccount()
+			_, _ = v.ss.GetAccountProofPublicKey()
+			_, _ = v.ss.GetGroupForContact(peer.accountPK())
+			_, _ = v.ss.GetOwnMemberDeviceForGroup(g)
+		}
+		var writes atomic.Int64
+		probe := newVStore("wprobe", 2, 2)
+		probe.ds.FailOn = func(op, key string) error {
+			if isWrite(op) {
+				writes.Add(1)
+			}
+			return nil
+		}
+		firstUse(probe)
+		total := writes.Load()
+		if total == 0 {
+			rep.Inconclusivef("write-failure stage could not be prepared (no write observed at first use)")
+		}
+		// the reference for the import variant: the account (goodA, goodB) on an untouched store
+		refImp := newVStore("wref", 2, 2)
+		refErr := refImp.ss.ImportAccountKeys(goodA, goodB)
+		var refCG groupFP
+		if refErr == nil {
+			if cg, err := refImp.ss.GetGroupForContact(peer.accountPK()); err == nil {
+				refCG = fpOf(cg)
+			} else {
+				refErr = err
+			}
+		}
+		for k := int64(1); k <= total; k++ {
+			for _, variant := range []string{"retry-reopen", "import"} {
+				st := newVStore("wf", 2, 2)
+				var c atomic.Int64
+				st.ds.FailOn = func(op, key string) error {
+					if isWrite(op) && c.Add(1) == k {
+						return injected
+					}
+					return nil
+				}
+				label := fmt.Sprintf("write-failure/%s/%d-of-%d", variant, k, total)
+				rep.Case(label)
+				if pnc, stack := verifkit.Try(func() { firstUse(st) }); pnc != nil {
+					rep.Violate("C11/panic/write-failure", fmt.Sprintf("%v", pnc), map[string]interface{}{"case": label, "stack": stack})
+					continue
+				}
+				st.ds.FailOn = nil
+				switch variant {
+				case "retry-reopen":
+					firstUse(st) // the retry
+					idLive := identityOf(st)
+					cgLive, errLive := st.ss.GetGroupForContact(peer.accountPK())
+					re := st.clone()
+					idRe := identityOf(re)
+					cgRe, errRe := re.ss.GetGroupForContact(peer.accountPK())
+					if idLive != idRe {
+						rep.Violate("C11/identity-changed-by-write-failure", "after ONE refused datastore write at first use the running store and the same store re-opened report different account keys", label)
+					} else if errLive != nil || errRe != nil || fpOf(cgLive) != fpOf(cgRe) {
+						rep.Violate("C11/identity-changed-by-write-failure", "after ONE refused datastore write at first use the running store and the same store re-opened derive different contact groups", label)
+					}
+				case "import":
+					if refErr != nil {
+						continue
+					}
+					if k != 1 {
+						// only when NOTHING was persisted before the fault is the store still "fresh" for an import
+						continue
+					}
+					if err := st.ss.ImportAccountKeys(goodA, goodB); err != nil {
+						continue // a refusal is not a wrong key
+					}
+					for _, v := range []*vStore{st, st.clone()} {
+						if id := identityOf(v); id != fmt.Sprintf("%x/%x", goodA, goodB) {
+							rep.Violate("C11/import-not-reproduced-after-write-failure", "a store whose very first write was refused accepted an import but does not export the imported account keys", label)
+							break
+						}
+						if cg, err := v.ss.GetGroupForContact(peer.accountPK()); err != nil || fpOf(cg) != refCG {
+							rep.Violate("C11/import-not-reproduced-after-write-failure", "a store whose very first write was refused accepted an import but derives another contact group than the imported account does elsewhere", label)
+							break
+						}
+					}
+				}
+				rep.Count("write_failures_survived", 1)
+			}
+		}
+	}
 	// swapped blobs: outside the statement; self-consistency only
 	{
 		st := newVStore("SW", 2, 2)
